@@ -65,6 +65,9 @@ def run(chk: Check) -> None:
     # "a continue task resumes exactly the persisted checkpoint": every field of the process is saved under a key and restored from it (shared with C07 / C08)
     from .c07 import persisted_fields
     persisted_fields(chk)
+    # ... and what is left out of a checkpoint is what the loader fills in again (an empty mapping skipped on truthiness comes back as None in the continued process)
+    from .c07 import falsy_values_survive
+    falsy_values_survive(chk, 'SYM-persisted-field')
     pl = prog.cls('process_comms.ProcessLauncher')
     call = prog.view(pl.vmethods['__call__'])
     # 1. DISP
@@ -154,6 +157,17 @@ def run(chk: Check) -> None:
         rej = [t for t in cfg.nodes if t.kind == 'test' and norm(t.ast.test) in ('persist and (not self._persister)', 'persist and not self._persister', 'persist and self._persister is None')]
         ok = len(rej) == 1 and not branch_reaches_exit(cfg, rej[0], 'true') and all(cfg.must_pass(cfg.entry, [c], lambda m: m in rej, edge_ok=no_exc) for c in ctor)
         raises = [n for n in cfg.nodes if n.kind == 'raisestmt' and 'TaskRejected' in norm(n.ast.exc)]
+        if not ok and ctor:
+            # however the guard is spelled (nested ifs, a flag, early logging): with "persist asked, no persister" no normal path reaches the constructor -- every one
+            # ends in the rejection -- and without that combination the constructor is reached
+            from ..decisions import paths_under as _pu
+            try:
+                bad_paths = _pu(ff, {'persist': True, 'self._persister': False, 'self._persister is None': True})
+                fine_paths = _pu(ff, {'persist': False})
+                ok = bool(bad_paths) and not any(m in ctor for p_ in bad_paths for m in p_) and all(any(m.kind == 'raisestmt' and 'TaskRejected' in norm(m.ast.exc) for m in p_) for p_ in bad_paths) \
+                    and any(m in ctor for p_ in fine_paths for m in p_)
+            except RuntimeError:
+                ok = False
         chk.ob('GUARD-rejection', hf, ok and bool(raises), f'{handler}: persisting without a persister is rejected before the process is constructed', kind='persist-needs-persister')
         saves = [n for n in cfg.nodes if any(norm(c.func) == 'self._persister.save_checkpoint' for c in _calls(n))]
         ok = len(saves) == 1 and ('T', 'persist') in ff.at(saves[0])
